@@ -191,6 +191,7 @@ fn hist<T: CellT + std::hash::Hash>(seed: u64, histories: usize, steps: usize, m
                 13 => ([("flip_rows"), ("flip_cols"), ("swap_dimensions"), ("shrink_to_fit")][rng.below(4)], noarg.clone()),
                 14 => ("sort_by_row", json!({"row": idx(r_.saturating_sub(1), &mut rng)})),
                 15 => ("sort_by_col", json!({"col": idx(c.saturating_sub(1), &mut rng)})),
+                16 if rng.chance(40) => ("set_flat", json!({"i": idx((c * r_).saturating_sub(1), &mut rng), "via": rng.below(2), "v": fresh(1, &mut next_id)[0]})),
                 16 => ("set", json!({"c": idx(c.saturating_sub(1), &mut rng), "r": idx(r_.saturating_sub(1), &mut rng), "v": fresh(1, &mut next_id)[0]})),
                 17 => ("swap", json!({"c1": idx(c.saturating_sub(1), &mut rng), "r1": idx(r_.saturating_sub(1), &mut rng),
                                       "c2": idx(c.saturating_sub(1), &mut rng), "r2": idx(r_.saturating_sub(1), &mut rng)})),
